@@ -59,8 +59,13 @@ def main(tier):
         ctxs = []
         for pre, post in (("1", ""), ("", "1"), ("a", "a"), ("1", "1"), ("`s`", "`s`")):
             ctk, _, cerr = project.parse_text(pre + key + post)
-            ctxs.append({"pre": cps(pre), "post": cps(post), "toks": ctk or [],
+            ctxs.append({"pre": cps(pre), "post": cps(post), "toks": ctk or [], "loose": False,
                          "err": cerr if (cerr or "").startswith("lex") else ""})
+        for pre in ("k", "∆", "ø", "Þ", "¨", "1k", "`s`∆"):
+            for post in ("", "1"):
+                ctk, _, cerr = project.parse_text(pre + key + post)
+                ctxs.append({"pre": cps(pre), "post": cps(post), "toks": ctk or [], "loose": True,
+                             "err": cerr if (cerr or "").startswith("lex") else ""})
         run = EL.elements.get(key, (None, -1))[1] if table == "elements" else -1
         return {"op": "key", "key": cps(key), "table": table, "toks": tk or [], "tree": tr or [],
                 "err": err or "", "nocc": nocc, "arity": -1 if arity is None else arity,
